@@ -830,6 +830,10 @@ struct Sim {
       }
       ++ops_ok;
       c.label("ok:reserve");
+      // direction of the re-typing (labels only; every direction on shared and private buffers)
+      if (before && n) c.label(compatible ? (which == 1 ? "retype:typed-to-alias" : "retype:typed-kept") : nk ? "retype:typed-to-other-finaliser" : "retype:typed-to-raw");
+      else if (before && !compatible && nk && !n) c.label("retype:raw-or-empty-to-typed");
+      if (before && was_shared) c.label("retype:shared-buffer");
     }
     sync("reserve");
   }
